@@ -193,7 +193,6 @@ def model_layer(run, rng, tier, model):
             run.case(l)
             run.count("model_" + kind)
             r = parse_canon(o)
-            choiceref = C02.ref_to_choice(m, c["tn"]) or C02.uses_choice_ref(m, dict(m["defs"])[c["tn"]])
             base = {"module": m["text"], "type": c["tn"], "model_type": c["ts"], "value": c["vs"], "command_line": l, "c": o}
             if kind == "ref":
                 if r is None:
@@ -234,9 +233,6 @@ def model_layer(run, rng, tier, model):
                             e = uper_bytes(e)
                         okf = (got == e)
                     if not okf:
-                        if s == "cper" and choiceref and got.startswith("!"):
-                            run.known_finding("C02-choice-ref-no-per", l)
-                            continue
                         run.violation("correspondence:Rt.%s" % s, dict(base, what="C encoder output differs from the model on this representation", syntax=s, model=e),
                                       no_input=(rr[s] == got))
             # the property oracle: identical canonical output for every representation of the value
